@@ -214,9 +214,19 @@ def run_worker(mod, tier, seed, shard, nshards, out_path, budget_s, reach=None):
     status = 'ok'
     try:
         mod.worker(ctx)
-    except Exception:
-        status = 'crashed'
-        ctx.note('worker crashed: ' + traceback.format_exc()[-900:])
+    except Exception as e:
+        tb = traceback.extract_tb(e.__traceback__)
+        inner = tb[-1].filename if tb else ''
+        if os.path.abspath(inner).startswith(os.path.abspath(REPO) + os.sep):
+            # the library raised where the workload does not expect it (on the unchanged tree no check reaches this line): the rest of
+            # this shard's workload is lost, the exception itself is the observation
+            ctx.violation('unexpected-library-exception/%s' % type(e).__name__,
+                          '%r raised at %s:%d (%s); shard %d stopped' % (e, os.path.relpath(inner, REPO), tb[-1].lineno, tb[-1].name, shard),
+                          {'traceback': traceback.format_exc()[-1500:]})
+            status = 'stopped-by-library-exception'
+        else:
+            status = 'crashed'
+            ctx.note('worker crashed: ' + traceback.format_exc()[-900:])
     finally:
         if reach is not None:
             reach.stop()
@@ -317,7 +327,7 @@ def run_property(mod, tier, seed):
         inconclusive.extend(problems)
         merge(results, ctx)
         for r in results:
-            if r.get('status') != 'ok':
+            if r.get('status') not in ('ok', 'stopped-by-library-exception'):
                 inconclusive.append('a worker crashed: %s' % '; '.join(n for n in r['notes'] if n.startswith('worker crashed'))[-900:])
         if hasattr(mod, 'finalize'):
             try:
